@@ -182,6 +182,35 @@ pub fn spec_exprs(rng: &mut Rng, n: usize) -> Vec<SpecE> {
         out.push(SpecE::Union(Box::new(l.clone()), Box::new(o.clone())));
         out.push(SpecE::Inter(Box::new(l.clone()), Box::new(o)));
     }
+    // pruning-relevant compositions, complete over a small leaf set: here a wrong can_match/will_always_match of a
+    // combinator prunes (or fails to emit) whole subtrees of accepted keys
+    let prune_leaves: Vec<SpecE> = vec![
+        SpecE::Always,
+        SpecE::StartsWith(Box::new(SpecE::Str("a".into()))),
+        SpecE::StartsWith(Box::new(SpecE::Str("th".into()))),
+        SpecE::Subseq("a".into()),
+        SpecE::Subseq("e".into()),
+        SpecE::Str("ab".into()),
+        SpecE::Str("the".into()),
+        SpecE::Str("".into()),
+        SpecE::Compl(Box::new(SpecE::StartsWith(Box::new(SpecE::Str("a".into()))))),
+        SpecE::Compl(Box::new(SpecE::Always)),
+        leaves[10].clone(),
+    ];
+    for x in &prune_leaves {
+        for y in &prune_leaves {
+            let (bx, by) = (|| Box::new(x.clone()), || Box::new(y.clone()));
+            out.push(SpecE::Compl(Box::new(SpecE::Inter(bx(), by()))));
+            out.push(SpecE::Compl(Box::new(SpecE::Union(bx(), by()))));
+            out.push(SpecE::StartsWith(Box::new(SpecE::Inter(bx(), by()))));
+            out.push(SpecE::Inter(Box::new(SpecE::Compl(bx())), by()));
+            out.push(SpecE::Union(Box::new(SpecE::Compl(bx())), Box::new(SpecE::Compl(by()))));
+        }
+        out.push(SpecE::StartsWith(Box::new(SpecE::Compl(Box::new(SpecE::StartsWith(Box::new(x.clone())))))));
+        out.push(SpecE::StartsWith(Box::new(SpecE::StartsWith(Box::new(x.clone())))));
+        out.push(SpecE::Compl(Box::new(SpecE::Compl(Box::new(x.clone())))));
+    }
+    let n = n + out.len();
     while out.len() < n {
         // random depth-2 expression
         let a = rng.pick(&leaves).clone();
